@@ -7,7 +7,7 @@ COMMON_TB = [
 ]
 
 NOT_CLAIMED = {}
-FACT_PROPS = ["C03", "C06", "C07", "C11", "C12", "C13", "C15", "C16", "C20"]
+FACT_PROPS = ["C03", "C06", "C07", "C11", "C12", "C13", "C15", "C16", "C19", "C20"]
 
 PROPS = {
     "C17": dict(
